@@ -29,8 +29,8 @@ func asRename(newName string) callMigrator {
 // migrates a function call using a template
 func asTemplate(template string) callMigrator {
 	return func(funcName string, params []string) (string, error) {
-		numParamPlaceholders := strings.Count(template, "%s") + strings.Count(template, "%v")
-		if numParamPlaceholders > len(params) {
+		numParamPlaceholders := countParamPlaceholders(template)
+		if numParamPlaceholders != len(params) {
 			return "", fmt.Errorf("expecting %d params whilst migrating call to %s but got %d", numParamPlaceholders, funcName, len(params))
 		}
 
@@ -41,6 +41,17 @@ func asTemplate(template string) callMigrator {
 
 		return fmt.Sprintf(template, paramsAsInterfaces...), nil
 	}
+}
+
+// counts the params that a template takes, i.e. its plain placeholders or if it has them, its highest explicit index
+func countParamPlaceholders(template string) int {
+	count := strings.Count(template, "%s") + strings.Count(template, "%v")
+
+	// explicit indexes, e.g. %[2]s, are numbered from 1
+	for strings.Contains(template, "%["+strconv.Itoa(count+1)+"]") {
+		count++
+	}
+	return count
 }
 
 // migrates a function call using a template in which the parameters become operands of operators
